@@ -216,3 +216,98 @@ func reachEdgeSensitive(start, pred *ssa.BasicBlock) map[*ssa.BasicBlock]bool {
 	}
 	return out
 }
+
+// ---------------------------------------------------------------------------
+// acyclic path enumeration (for functions whose decisions merge again, where block-level
+// must-facts are lost at the join): every path visits a block at most once.
+
+type cfgPath struct {
+	Blocks []*ssa.BasicBlock
+	Facts  map[condFact]bool
+}
+
+// enumPaths lists the acyclic paths from the entry of fn to block `to` (or, when to is nil, to
+// every block ending in a Return). It gives up (ok=false) beyond limit paths.
+func enumPaths(fn *ssa.Function, to *ssa.BasicBlock, limit int) (paths []cfgPath, ok bool) {
+	if fn.Blocks == nil {
+		return nil, false
+	}
+	ok = true
+	var cur []*ssa.BasicBlock
+	on := map[*ssa.BasicBlock]bool{}
+	var canReachTo map[*ssa.BasicBlock]bool
+	if to != nil {
+		canReachTo = map[*ssa.BasicBlock]bool{to: true}
+		for changed := true; changed; {
+			changed = false
+			for _, b := range fn.Blocks {
+				if canReachTo[b] {
+					continue
+				}
+				for _, s := range b.Succs {
+					if canReachTo[s] {
+						canReachTo[b] = true
+						changed = true
+					}
+				}
+			}
+		}
+	}
+	var walk func(b *ssa.BasicBlock)
+	walk = func(b *ssa.BasicBlock) {
+		if !ok || on[b] {
+			return
+		}
+		if canReachTo != nil && !canReachTo[b] {
+			return
+		}
+		on[b] = true
+		cur = append(cur, b)
+		defer func() { on[b] = false; cur = cur[:len(cur)-1] }()
+		end := false
+		if to != nil {
+			end = b == to
+		} else if _, isRet := b.Instrs[len(b.Instrs)-1].(*ssa.Return); isRet {
+			end = true
+		}
+		if end {
+			if len(paths) >= limit {
+				ok = false
+				return
+			}
+			p := cfgPath{Blocks: append([]*ssa.BasicBlock{}, cur...), Facts: map[condFact]bool{}}
+			for k := 0; k+1 < len(p.Blocks); k++ {
+				pr, nx := p.Blocks[k], p.Blocks[k+1]
+				if iff, isIf := pr.Instrs[len(pr.Instrs)-1].(*ssa.If); isIf && pr.Succs[0] != pr.Succs[1] {
+					addCondFacts(p.Facts, iff.Cond, pr.Succs[0] == nx)
+				}
+			}
+			deriveFacts(p.Facts)
+			paths = append(paths, p)
+			return
+		}
+		for _, s := range b.Succs {
+			walk(s)
+		}
+	}
+	walk(fn.Blocks[0])
+	return paths, ok
+}
+
+// instrsOn lists the instructions executed along the path, in order.
+func (p cfgPath) instrs() []ssa.Instruction {
+	var out []ssa.Instruction
+	for _, b := range p.Blocks {
+		out = append(out, b.Instrs...)
+	}
+	return out
+}
+
+func (p cfgPath) has(b *ssa.BasicBlock) bool {
+	for _, x := range p.Blocks {
+		if x == b {
+			return true
+		}
+	}
+	return false
+}
